@@ -152,18 +152,30 @@ class MultipartDecoder:
             % (LINE_BREAK, re.escape(boundary), LINE_BREAK, LINE_BREAK),
             re.MULTILINE,
         )
+        # A boundary at the very end of the buffer that is not yet followed by
+        # the line break (or the second dash of "--") that completes it.
+        self.partial_boundary_re = re.compile(
+            rb"%s--%s-?-?[^\S\n\r]*\Z" % (LINE_BREAK, re.escape(boundary))
+        )
 
     def last_newline(self) -> int:
-        try:
-            last_nl = self.buffer.rindex(b"\n")
-        except ValueError:
-            last_nl = len(self.buffer)
-        try:
-            last_cr = self.buffer.rindex(b"\r")
-        except ValueError:
-            last_cr = len(self.buffer)
-
-        return min(last_nl, last_cr)
+        """
+        Index from which the buffer has to be held back because it may be the
+        start of a delimiter whose end has not arrived yet. Everything before
+        it is part data. Only the tail of the buffer is examined, so that the
+        amount of retained data does not depend on the part's content.
+        """
+        # The boundary text is in, what must follow it is not.
+        match = self.partial_boundary_re.search(self.buffer)
+        if match is not None:
+            return match.start()
+        # Not even the boundary text is complete: such a delimiter starts with
+        # a line break in the last len(b"\r\n--" + boundary) - 1 bytes.
+        start = max(0, len(self.buffer) - len(self.boundary) - 3)
+        for index in range(start, len(self.buffer)):
+            if self.buffer[index] in b"\r\n":
+                return index
+        return len(self.buffer)
 
     def receive_data(self, data: Optional[bytes]) -> None:
         if data is None:
